@@ -131,7 +131,7 @@ namespace
                     runtime.__logmsg(logmessage::runtime::ArraySizeChanged(frame.diag_info_from_position(), m_size, m_array->size()));
                     m_size = m_array->size();
                 }
-                if (++m_index == m_size)
+                if (++m_index >= m_size) // >=: the code may have shortened the array by more than one element
                 {
                     runtime.context_active().push_value(m_count);
                     return result::ok;
@@ -546,7 +546,7 @@ namespace
                     runtime.__logmsg(logmessage::runtime::ArraySizeChanged(frame.diag_info_from_position(), m_size, m_array->size()));
                     m_size = m_array->size();
                 }
-                if (++m_index == m_size)
+                if (++m_index >= m_size) // >=: the code may have shortened the array by more than one element
                 {
                     return result::ok;
                 }
@@ -704,7 +704,7 @@ namespace
                     runtime.__logmsg(logmessage::runtime::ArraySizeChanged(frame.diag_info_from_position(), m_size, m_array->size()));
                     m_size = m_array->size();
                 }
-                if (++m_index == m_size)
+                if (++m_index >= m_size) // >=: the code may have shortened the array by more than one element
                 {
                     runtime.context_active().push_value(m_out);
                     return result::ok;
@@ -922,7 +922,7 @@ namespace
                     runtime.__logmsg(logmessage::runtime::ArraySizeChanged(frame.diag_info_from_position(), m_size, m_array->size()));
                     m_size = m_array->size();
                 }
-                if (++m_index == m_size)
+                if (++m_index >= m_size) // >=: the code may have shortened the array by more than one element
                 {
                     runtime.context_active().push_value(-1);
                     return result::ok;
@@ -1154,7 +1154,7 @@ namespace
                     runtime.__logmsg(logmessage::runtime::ArraySizeChanged(frame.diag_info_from_position(), m_size, m_array->size()));
                     m_size = m_array->size();
                 }
-                if (++m_index == m_size)
+                if (++m_index >= m_size) // >=: the code may have shortened the array by more than one element
                 {
                     runtime.context_active().push_value(m_out);
                     return result::ok;
